@@ -107,7 +107,7 @@ func specialDigests(args []string) int {
 		applyGCVariant(tr, *gcvar)
 		v, e := RunTrace(tr, false)
 		l := digestLine{K: k, Seed: tr.Seed, D: e.ObsDigest(), Struct: e.St.LegalStruct, Steps: e.St.Steps,
-			GCs: e.St.Faults["gc-boundary"] + e.St.Faults["gc-midop"], Shape: e.S.W.VerifShape(), Targets: len(e.M.Targets)}
+			GCs: e.St.Faults["gc-boundary"] + e.St.Faults["gc-midop"], Shape: worldShape(e.S.W), Targets: len(e.M.Targets)}
 		if v != nil {
 			l.Class = v.Class
 		}
